@@ -1,7 +1,7 @@
 (* Proofs/FormatExtras: what the executable checker wf_file means, stated
-   without reference to its code; concrete witnesses (evaluated by the VM on
-   16 KiB files) for the two classes in which the real Parse departs from the
-   property, and boundary examples. *)
+   without reference to its code; concrete files (evaluated by the VM on
+   16 KiB inputs) on which the decoder used to depart from the property,
+   and boundary examples. *)
 From Coq Require Import String.
 From Coq Require Import List Arith NArith ZArith Bool Lia.
 From Tele Require Import Lib.Bytes Lib.BytesN Gen.Consts Model.DecodeStack Model.Layout Model.Parse
@@ -68,29 +68,50 @@ Definition fresh_state : wstate :=
   match create [] wit_meta with Some s => s | None => {| w_meta := []; w_hdr := 0; w_bs := [] |} end.
 Definition file_after (ops : list op) : bytes := w_bs (snd (run_ops fresh_state ops)).
 
-(* the library writes both counters; the file follows the layout; Parse answers corrupt *)
+(* the library writes both counters; the file follows the layout; Parse returns
+   both under the one expanded name, the later record (higher bucket) wins *)
 Definition twin_file : bytes := file_after [OpAdd twin_a 1; OpAdd twin_b 2].
 
 Lemma twin_file_facts :
-  wf_file twin_file = true /\ twin_clash twin_file = true /\ parse twin_file = PErrCorrupt /\
-  decode_stack twin_a = twin_b.
+  wf_file twin_file = true /\ decode_stack twin_a = twin_b /\
+  parse twin_file = POk [(s2b "Program", s2b "p")] [(twin_b, 1); (twin_b, 2)] /\
+  last_wins [(twin_b, 1); (twin_b, 2)] = [(twin_b, 2)].
 Proof. vm_compute. repeat split. Qed.
 
-(* the same two counters with the buckets in the other order: later wins *)
+(* the same two counters with the buckets in the other order *)
 Definition twin_a2 : bytes := s2b "q" ++ nlb ++ s2b "x.f" ++ nlb ++ [34] ++ s2b ".g".
 Definition twin_b2 : bytes := s2b "q" ++ nlb ++ s2b "x.f" ++ nlb ++ s2b "x.g".
 Lemma twin2_file_facts :
   let f := file_after [OpAdd twin_a2 1; OpAdd twin_b2 2] in
-  wf_file f = true /\ twin_clash f = false /\
+  wf_file f = true /\
   parse f = POk [(s2b "Program", s2b "p")] [(twin_b2, 2); (twin_b2, 1)].
 Proof. vm_compute. repeat split. Qed.
 
-(* header length field 16377 in a 16 KiB input: the load of bucket head 0
-   starts three bytes before the end of the input *)
+(* the same stored name twice in one chain: corrupt *)
+Definition dup_file : bytes :=
+  put (put (put (c_hdrPrefix ++ le32 32 ++ zeros (16384 - 32))
+                (head_off 32 (hash (s2b "dup"))) (le32 2112))
+           2112 (le64 1 ++ le32 3 ++ le32 2176 ++ s2b "dup"))
+      2176 (le64 2 ++ le32 3 ++ le32 0 ++ s2b "dup").
+Lemma dup_file_facts : parse dup_file = PErrCorrupt /\ wf_file dup_file = false.
+Proof. vm_compute. repeat split. Qed.
+
+(* header length field 16377 in a 16 KiB input: bucket head 0 would start three
+   bytes before the end of the input; load32 answers 0 for it *)
 Definition oob_file : bytes := c_hdrPrefix ++ le32 16377 ++ zeros (16384 - 32).
 Lemma oob_file_facts :
-  len oob_file = 16384 /\ oob_head oob_file = true /\
-  parse_with [] oob_file = POk [] [] /\ parse_with [255; 255; 255] oob_file = PErrCorrupt.
+  len oob_file = 16384 /\
+  parse_with [] oob_file = POk [] [] /\ parse_with [255; 255; 255] oob_file = POk [] [].
+Proof. vm_compute. repeat split. Qed.
+
+(* a record at an offset that is not a multiple of 8: refused *)
+Definition unaligned_file : bytes :=
+  put (put (c_hdrPrefix ++ le32 32 ++ zeros (16384 - 32)) 36 (le32 4004))
+      4004 (le64 7 ++ le32 3 ++ le32 0 ++ s2b "abc").
+Lemma unaligned_file_facts :
+  parse unaligned_file = PErrCorrupt /\
+  parse (put (put (c_hdrPrefix ++ le32 32 ++ zeros (16384 - 32)) 36 (le32 4008))
+             4008 (le64 7 ++ le32 3 ++ le32 0 ++ s2b "abc")) = POk [] [(s2b "abc", 7)].
 Proof. vm_compute. repeat split. Qed.
 
 (* an ordinary run *)
